@@ -536,6 +536,8 @@ class Engine:
             return VOpaque(tag=name)
         if ty.startswith("set[int]"):
             return VSet(arr=z3.Array(fresh_name(name), z3.IntSort(), z3.BoolSort()))
+        if ty.startswith("set[opaque]"):
+            return self.alloc(VSet(arr=z3.Array(fresh_name(name), Val, z3.BoolSort())))
         if ty.startswith("dict["):
             k, v = _split_top(ty[5:-1])
             ks = z3.IntSort() if k == "int" else Val
@@ -605,7 +607,7 @@ class Engine:
         if isinstance(v, VSet):
             if v.members is not None:
                 return v
-            return VSet(arr=z3.Array(fresh_name(name), z3.IntSort(), z3.BoolSort()))
+            return VSet(arr=z3.Array(fresh_name(name), v.arr.sort().domain() if v.arr is not None else z3.IntSort(), z3.BoolSort()))
         if isinstance(v, (VFunc, VClass, VModule)):
             return v
         if isinstance(v, VNone):
@@ -1648,7 +1650,18 @@ class Engine:
         res = None
         for op, rn in zip(e.ops, e.comparators):
             right = self.eval(rn, frame)
-            t = self.compare(op, left, right, e)
+            t = None
+            if isinstance(op, (ast.In, ast.NotIn)) and isinstance(rn, ast.Name):
+                con0 = getattr(self.vf, "current", None)
+                rv = self.deref(right)
+                if con0 is not None and rn.id in con0.options.get("immutable_sets", ()) and isinstance(rv, VOpaque):
+                    # membership in an untracked container that the function never mutates (syntactic guard in verify.py):
+                    # a deterministic ghost relation, the same in code and in specifications
+                    t = self.models.member_f(rv.t, self.models.to_val(self, left))
+                    if isinstance(op, ast.NotIn):
+                        t = z3.Not(t)
+            if t is None:
+                t = self.compare(op, left, right, e)
             if res is None:
                 res = t
             else:
@@ -1740,6 +1753,21 @@ class Engine:
         if len(gen.generators) != 1:
             raise OutOfSubset(gen, "nested quantifier generators")
         g = gen.generators[0]
+        if isinstance(g.target, ast.Name) and not (isinstance(g.iter, ast.Call) and isinstance(g.iter.func, ast.Name) and g.iter.func.id == "range"):
+            # quantification over the members of a tracked set of untracked values (characteristic array over Val)
+            dv = self.deref(self.eval(g.iter, frame))
+            if isinstance(dv, VSet) and dv.arr is not None and dv.arr.sort().domain() == self.models.Val:
+                x = z3.Const(fresh_name("bv!" + g.target.id), self.models.Val)
+                saved = self.spec_env
+                self.spec_env = dict(saved or {})
+                self.spec_env[g.target.id] = VOpaque(x, tag="member")
+                try:
+                    conds = [self.truth(self.eval(c, frame)) for c in g.ifs]
+                    body = self.truth(self.eval(gen.elt, frame))
+                finally:
+                    self.spec_env = saved
+                dom = z3.And([dv.arr[x]] + conds)
+                return VBool(z3.ForAll([x], z3.Implies(dom, body)) if which == "all" else z3.Exists([x], z3.And(dom, body)))
         if not (isinstance(g.iter, ast.Call) and isinstance(g.iter.func, ast.Name) and g.iter.func.id == "range" and isinstance(g.target, ast.Name)):
             raise OutOfSubset(gen, "quantifier domain must be range(...)")
         bounds = [self.eval(a, frame) for a in g.iter.args]
